@@ -28,6 +28,7 @@ def run(chk):
     cs = CaseSet("c20")
     plan = []
     for wi in range(30 if quick else 400):
+        rng.seed("%d/c20-1/%d" % (chk.seed, wi))      # every world has its own stream: families do not disturb each other
         kind = rng.choice(["half space model", "plate model", "plate model constant age", "linear"])
         kappa = rng.choice([0.804e-6, g.num(5e-7, 2e-6, 10)])
         w = {"version": "1.1", "thermal diffusivity": kappa}
@@ -77,6 +78,7 @@ def run(chk):
     # a parallel from the ridge across the meridian (the nearest ridge point is found through the longitude alias there)
     from wbgen import cart_point
     for wi in range(6 if quick else 60):
+        rng.seed("%d/c20-2/%d" % (chk.seed, wi))      # every world has its own stream: families do not disturb each other
         kind = rng.choice(["half space model", "plate model"])
         kappa = 0.804e-6
         md = float(round(rng.uniform(8e4, 2.0e5)))
@@ -118,6 +120,7 @@ def run(chk):
     from qgen import line_query
     slab_plan = []
     for wi in range(25 if quick else 300):
+        rng.seed("%d/c20-3/%d" % (chk.seed, wi))      # every world has its own stream: families do not disturb each other
         wj, sph, f = line_world(rng, kind="subducting plate", spherical=False, straight=rng.random() < 0.7, uniform_sections=True,
                                 allow_mass_conserving=True, extra_area=0.0)
         for k in ("temperature models", "composition models", "grains models", "velocity models", "sections"):
